@@ -238,34 +238,35 @@ ALLOWED_AXIOMS = {
 }
 
 
-def coq_property_file(pid, timeout=1500):
+def coq_property_file(pid, timeout=1500, stem=None):
     """Re-check Properties_<pid>.v from scratch (its dependencies incrementally) and
     parse the `Print Assumptions` output beneath every theorem.
     Returns dict(theorems=[(name, axioms-or-'closed')], ok=bool, log=str, bad=[...])."""
     coq_makefile()
-    vfile = os.path.join(COQ, "Properties_%s.v" % pid)
+    stem = stem or ("Properties_%s" % pid)
+    vfile = os.path.join(COQ, stem + ".v")
     src = open(vfile).read()
     theorems = re.findall(r"^\s*Theorem\s+([A-Za-z0-9_']+)", src, re.M)
     res = {"theorems": [], "ok": False, "log": "", "bad": [], "declared": theorems}
     with Lock("coq"):
         # dependencies first
-        rc, out = sh("timeout %d make -k -j%d -f Makefile.coq Properties_%s.vo" % (timeout, NPROC, pid),
+        rc, out = sh("timeout %d make -k -j%d -f Makefile.coq %s.vo" % (timeout, NPROC, stem),
                      cwd=COQ, timeout=timeout + 30)
         if rc != 0:
             # a concurrent build of the same files (another check, an editor session) can make one attempt fail
             time.sleep(2)
-            rc, out = sh("timeout %d make -k -j%d -f Makefile.coq Properties_%s.vo" % (timeout, NPROC, pid),
+            rc, out = sh("timeout %d make -k -j%d -f Makefile.coq %s.vo" % (timeout, NPROC, stem),
                          cwd=COQ, timeout=timeout + 30)
         res["log"] = out
         if rc != 0:
-            res["bad"].append("make Properties_%s.vo failed" % pid)
+            res["bad"].append("make %s.vo failed" % stem)
             return res
         # now compile the property file itself again, capturing what it prints
         args = coqproject_args()
-        rc, out = sh("timeout %d coqc %s Properties_%s.v" % (timeout, args, pid), cwd=COQ, timeout=timeout + 30)
+        rc, out = sh("timeout %d coqc %s %s.v" % (timeout, args, stem), cwd=COQ, timeout=timeout + 30)
         res["log"] += out
         if rc != 0:
-            res["bad"].append("coqc Properties_%s.v failed" % pid)
+            res["bad"].append("coqc %s.v failed" % stem)
             return res
     # every Theorem must be followed by Print Assumptions; parse outputs in order
     chunks = re.split(r"(?m)^(?=Closed under the global context|Axioms:)", out)
@@ -438,13 +439,19 @@ class Run:
         self.notes = []
 
     # ---- proof side
-    def prove(self):
-        """Hygiene + Properties_<pid>.v. Records obligations; a failure is a broken proof obligation."""
+    def prove(self, stems=None):
+        """Hygiene + Properties_<pid>.v (or the given property files). Records obligations; a failure is a
+        broken proof obligation."""
         bad = coq_hygiene()
-        r = coq_property_file(self.pid)
-        self.cov["checker_cmd"] = ("cd /verif/coq && coq_makefile -f _CoqProject -o Makefile.coq && make -f Makefile.coq "
-                                   "Properties_%s.vo && coqc Properties_%s.v  (Coq 8.16.1 kernel; Print Assumptions under every theorem)"
-                                   % (self.pid, self.pid))
+        stems = stems or ["Properties_%s" % self.pid]
+        r = {"theorems": [], "ok": True, "log": "", "bad": [], "declared": []}
+        for st in stems:
+            x = coq_property_file(self.pid, stem=st)
+            r["theorems"] += x["theorems"]; r["declared"] += x["declared"]; r["bad"] += x["bad"]
+            r["log"] += x["log"]; r["ok"] = r["ok"] and x["ok"]
+        self.cov["checker_cmd"] = ("cd /verif/coq && coq_makefile -f _CoqProject -o Makefile.coq && " +
+                                   " && ".join("make -f Makefile.coq %s.vo && coqc -Q . SqfVerif %s.v" % (st, st) for st in stems) +
+                                   "  (Coq 8.16.1 kernel; Print Assumptions under every theorem)")
         declared = r["declared"]
         done = [n for n, a in r["theorems"]] if r["ok"] else []
         self.cov["obligations"] = max(len(declared), 1)
